@@ -1,5 +1,5 @@
 """property -> rules registry (claimed properties only)"""
-from . import rules_state, rules_arith, rules_except, rules_guard, rules_slice, rules_types, rules_dep, rules_order, rules_cache, rules_assume
+from . import rules_state, rules_arith, rules_except, rules_guard, rules_slice, rules_types, rules_dep, rules_order, rules_cache, rules_assume, rules_extra
 
 RULES = {
     "P1": rules_state.rule_P1,
@@ -25,6 +25,11 @@ RULES = {
     "A1": rules_assume.rule_A1,
     "A1b": rules_assume.rule_A1b,
     "Z1": rules_assume.rule_Z1,
+    "S1": rules_types.rule_S1,
+    "G6": rules_extra.rule_G6,
+    "N3": rules_extra.rule_N3,
+    "N2s": rules_extra.rule_N2s,
+    "V1": rules_extra.rule_V1,
 }
 
 SELFTESTS = {"T1": rules_types.selftest_T1}
@@ -45,7 +50,7 @@ PROPS = {
     "C03": {
         "id": "C03",
         "title": "Element-wise array arithmetic, type promotion and value semantics",
-        "rules": ["T1", "T1c", "G2"],
+        "rules": ["T1", "T1c", "G2", "S1"],
         "clause": "the result type of every operator x operand-type pairing (112 binary pairings, compound forms, unary, "
                   "concatenation, selection) is the promoted one and type-changing compound forms do not compile; the length "
                   "guard of the compound array operators is a live throwing check dominating every element write; non-compound "
@@ -72,7 +77,7 @@ PROPS = {
     "C05": {
         "id": "C05",
         "title": "No call corrupts memory or hangs: misuse is reported by exception",
-        "rules": ["G1", "G2", "G3", "G5", "E1", "A1", "Z1"],
+        "rules": ["G1", "G2", "G3", "G5", "G6", "E1", "A1", "Z1"],
         "clause": "guard completeness (mechanisms 1-3 of the anchors): every plan solve() checks the input length with a live "
                   "check before mixing it with plan tables; every foreign-bound subscript and caller-supplied index in a public "
                   "function is dominated by a live relating guard; slices are range-checked at creation and count-checked at "
@@ -131,7 +136,7 @@ PROPS = {
     "C14": {
         "id": "C14",
         "title": "Analytic-signal and frequency-translation tools follow their definitions",
-        "rules": ["N1"],
+        "rules": ["N1", "V1"],
         "clause": "the tuner's admissible-frequency test (and every other division of the anchored files) is carried out in real "
                   "arithmetic: every f with |f| <= fs/2 is accepted, also for odd sample rates",
         "not_decided": "hilbert/HilbertFilter numerics and the phase accumulator arithmetic",
@@ -141,7 +146,7 @@ PROPS = {
     "C15": {
         "id": "C15",
         "title": "Prime and power-of-two helpers agree with number theory and terminate",
-        "rules": ["N2"],
+        "rules": ["N2", "N2s"],
         "clause": "no trial-division bound is computed in a type that can wrap for a 32-bit argument (necessary for correctness and "
                   "for termination within sqrt(n) steps above 65521^2)",
         "not_decided": "agreement with number theory below the wrap threshold (value-level), nextpow2/ispow2",
@@ -161,7 +166,7 @@ PROPS = {
     "C16": {
         "id": "C16",
         "title": "Sorting, order statistics and rank correlation match their definitions",
-        "rules": ["D1"],
+        "rules": ["D1", "N3"],
         "clause": "each correlation kernel's result (Pearson, Spearman, Kendall, per return statement of corr) may-depends on the "
                   "contents of both samples - necessary for symmetry and for being the named coefficient at all",
         "not_decided": "correctness of sort/median/medfilt, the numerical value of the coefficients, ties",
